@@ -109,7 +109,7 @@ Proof. intros A. destruct A. constructor; cbn [peer_upd p_adv_data p_adv_bidi p_
 
 Definition core_eq (c c2 : conn) : Prop :=
   c_streams c2 = c_streams c /\ c_done c2 = c_done c /\ c_client c2 = c_client c /\ c_msd c2 = c_msd c /\
-  c_data c2 = c_data c /\ c_bidi c2 = c_bidi c /\ c_uni c2 = c_uni c.
+  vals c2 = vals c /\ sents c2 = sents c.
 
 Lemma core_eq_refl c : core_eq c c.
 Proof. repeat split. Qed.
@@ -118,8 +118,10 @@ Lemma AdvEq_frame c c2 p p2 : AdvEq c p -> core_eq c c2 ->
   p_adv_data p2 = p_adv_data p -> p_adv_bidi p2 = p_adv_bidi p -> p_adv_uni p2 = p_adv_uni p ->
   (forall sid, p_adv_msd p2 sid = p_adv_msd p sid) -> AdvEq c2 p2.
 Proof.
-  intros A (E1 & E2 & E3 & E4 & E5 & E6 & E7) P1 P2 P3 P4. destruct A.
-  constructor; unfold done, can_receive, SentOK in *; rewrite ?E1, ?E2, ?E3, ?E4, ?E5, ?E6, ?E7, ?P1, ?P2, ?P3; try assumption.
+  intros A (E1 & E2 & E3 & E4 & E5 & E6) P1 P2 P3 P4. destruct A. unfold vals, sents in *.
+  inversion E5 as [[V1 V2 V3]]. inversion E6 as [[T1 T2 T3]].
+  constructor; unfold done, can_receive, SentOK, sent_ok in *; rewrite ?E1, ?E2, ?E3, ?E4, ?V1, ?V2, ?V3, ?T1, ?T2, ?T3, ?P1, ?P2, ?P3;
+    try assumption.
   - intros sid s. rewrite P4. apply a_live0.
   - intros sid. rewrite P4. apply a_fresh0.
 Qed.
@@ -327,4 +329,98 @@ Proof.
   assert (Cr : cond ro).
   { destruct C as [C|(c2 & b' & L2)]; [left; exact C|right]. rewrite L in L2. inversion L2; subst. discriminate. }
   pose proof (Q Cr p A) as A1. destruct ro; [apply discard_adveq, A1|exact A1].
+Qed.
+
+(* ---------- a complete pass is a cut pass with enough budget ---------- *)
+Lemma Zlen_cons {A} (x : A) t : Zlen (x :: t) = Zlen t + 1.
+Proof. unfold Zlen. cbn [length]. lia. Qed.
+
+Lemma drain_complete q : forall b, Zlen q <= b -> drain q b = (q, [], Some (b - Zlen q)).
+Proof.
+  induction q as [|x t IH]; intros b H; cbn [drain].
+  - rewrite Zlen_nil, Z.sub_0_r. reflexivity.
+  - rewrite Zlen_cons in *. pose proof (Zlen_nonneg t). destruct (b <=? 0) eqn:E; [lia|]. rewrite (IH (b - 1)) by lia.
+    replace (b - 1 - Zlen t) with (b - (Zlen t + 1)) by lia. reflexivity.
+Qed.
+
+Lemma raise_limit_b_complete ft l b : sent_ok l -> 0 < b ->
+  raise_limit_b ft l b = (fst (raise_limit ft l), snd (raise_limit ft l), Some (b - Zlen (snd (raise_limit ft l)))).
+Proof.
+  intros S B. unfold raise_limit_b, raise_limit, sent_ok in *.
+  destruct (l_used l * 2 >? l_value l) eqn:E1;
+    match goal with |- context[if negb (?a =? ?x) then _ else _] => destruct (negb (a =? x)) eqn:E2 end;
+    try (destruct (b <=? 0) eqn:E3; [lia|]); cbn [fst snd]; rewrite ?Zlen_nil, ?Z.sub_0_r; try reflexivity;
+    destruct RAISE_BEFORE_START_FRAME; try reflexivity; destruct l as [v0 u0 s0]; cbn in *; repeat f_equal; lia.
+Qed.
+
+Lemma raise_limit_len ft l : 0 <= Zlen (snd (raise_limit ft l)) <= 1.
+Proof.
+  unfold raise_limit. match goal with |- context[if negb (?a =? ?x) then _ else _] => destruct (negb (a =? x)) end; cbn; lia.
+Qed.
+
+Lemma raise_streams_b_complete l : Forall (fun q => ssent_ok (snd q)) l -> forall b, Zlen l <= b ->
+  raise_streams_b l b = (fst (raise_streams l), snd (raise_streams l), Some (b - Zlen (snd (raise_streams l)))).
+Proof.
+  induction 1 as [|[sid s] t S _ IH]; intros b B; cbn [raise_streams_b raise_streams].
+  - cbn [fst snd]. rewrite Zlen_nil, Z.sub_0_r. reflexivity.
+  - rewrite Zlen_cons in B. pose proof (Zlen_nonneg t). unfold raise_stream. cbn [snd] in S. unfold ssent_ok in S.
+    set (v := if negb (sm_msd s =? 0) && (r_highest (sm_recv s) * 2 >? sm_msd s) then sm_msd s * 2 else sm_msd s) in *.
+    destruct (negb (sm_sent s =? v)) eqn:E.
+    + destruct (b <=? 0) eqn:E3; [lia|]. rewrite (IH (b - 1)) by lia. destruct (raise_streams t) as [t' w']. cbn [fst snd app].
+      rewrite Zlen_cons. replace (b - 1 - Zlen w') with (b - (Zlen w' + 1)) by lia. reflexivity.
+    + rewrite (IH b) by lia. destruct (raise_streams t) as [t' w']. cbn [fst snd app].
+      assert (Es : (if RAISE_BEFORE_START_FRAME then mkStrm v (sm_sent s) (sm_sendfin s) (sm_recv s) else s) =
+                   mkStrm v (sm_sent s) (sm_sendfin s) (sm_recv s)).
+      { destruct RAISE_BEFORE_START_FRAME; [reflexivity|]. destruct s as [m0 t0 f0 r0]. cbn in *. f_equal.
+        unfold v in *. destruct (negb (m0 =? 0) && (r_highest r0 * 2 >? m0)); lia. }
+      rewrite Es. reflexivity.
+Qed.
+
+Lemma filter_ext' {A} (f g : A -> bool) l : (forall a, f a = g a) -> filter f l = filter g l.
+Proof. intros E. induction l as [|a t IH]; cbn; [reflexivity|]. rewrite E, IH. reflexivity. Qed.
+
+Definition pass_budget (c : conn) : Z := Zlen (c_chal c) + Zlen (c_retire c) + 3 + Zlen (c_streams c).
+Definition SentAll (c : conn) : Prop := SentOK c /\ Forall (fun q => ssent_ok (snd q)) (c_streams c).
+
+Lemma write_is_write_b c b : SentAll c -> pass_budget c <= b ->
+  write c = write_b c b [] /\ exists c1 w b', limit_stages c b = (c1, w, Some b').
+Proof.
+  intros ((SD & SB & SU) & SS) B. unfold pass_budget in B.
+  pose proof (Zlen_nonneg (c_chal c)). pose proof (Zlen_nonneg (c_retire c)). pose proof (Zlen_nonneg (c_streams c)).
+  pose proof (raise_limit_len FT_MAX_DATA (c_data c)). pose proof (raise_limit_len FT_MAX_STREAMS_BIDI (c_bidi c)).
+  pose proof (raise_limit_len FT_MAX_STREAMS_UNI (c_uni c)).
+  set (b1 := b - Zlen (c_chal c)). set (c1 := set_chal c []).
+  assert (G1 : st_chal c b = (c1, map (fun d => W FT_PATH_RESPONSE 0 d) (c_chal c), Some b1)).
+  { unfold st_chal. rewrite drain_complete by lia. reflexivity. }
+  set (b2 := b1 - Zlen (c_retire c)). set (c2 := set_retire c1 []).
+  assert (G2 : st_ret c1 b1 = (c2, map (fun q => W FT_RETIRE_CONNECTION_ID 0 q) (c_retire c), Some b2)).
+  { unfold st_ret. change (c_retire c1) with (c_retire c). rewrite drain_complete by (unfold b1; lia). reflexivity. }
+  set (rd := raise_limit FT_MAX_DATA (c_data c)) in *. set (b3 := b2 - Zlen (snd rd)).
+  set (c3 := set_limits c2 (fst rd) (c_bidi c2) (c_uni c2)).
+  assert (G3 : st_data c2 b2 = (c3, snd rd, Some b3)).
+  { unfold st_data. change (c_data c2) with (c_data c). rewrite raise_limit_b_complete by (trivial; unfold b2, b1; lia). reflexivity. }
+  set (rb := raise_limit FT_MAX_STREAMS_BIDI (c_bidi c)) in *. set (b4 := b3 - Zlen (snd rb)).
+  set (c4 := set_limits c3 (c_data c3) (fst rb) (c_uni c3)).
+  assert (G4 : st_bidi c3 b3 = (c4, snd rb, Some b4)).
+  { unfold st_bidi. change (c_bidi c3) with (c_bidi c). rewrite raise_limit_b_complete by (trivial; unfold b3, b2, b1; lia). reflexivity. }
+  set (ru := raise_limit FT_MAX_STREAMS_UNI (c_uni c)) in *. set (b5 := b4 - Zlen (snd ru)).
+  set (c5 := set_limits c4 (c_data c4) (c_bidi c4) (fst ru)).
+  assert (G5 : st_uni c4 b4 = (c5, snd ru, Some b5)).
+  { unfold st_uni. change (c_uni c4) with (c_uni c). rewrite raise_limit_b_complete by (trivial; unfold b4, b3, b2, b1; lia). reflexivity. }
+  set (rs := raise_streams (c_streams c)). set (c6 := set_streams c5 (fst rs)).
+  assert (G6 : st_streams c5 b5 = (c6, snd rs, Some (b5 - Zlen (snd rs)))).
+  { unfold st_streams. change (c_streams c5) with (c_streams c).
+    rewrite raise_streams_b_complete by (trivial; unfold b5, b4, b3, b2, b1; lia). reflexivity. }
+  assert (L : limit_stages c b = (c6, map (fun d => W FT_PATH_RESPONSE 0 d) (c_chal c) ++ map (fun q => W FT_RETIRE_CONNECTION_ID 0 q) (c_retire c) ++
+                                    snd rd ++ snd rb ++ snd ru ++ snd rs, Some (b5 - Zlen (snd rs)))).
+  { unfold limit_stages, seq. rewrite G1. cbv beta iota. rewrite G2. cbv beta iota. rewrite G3. cbv beta iota.
+    rewrite G4. cbv beta iota. rewrite G5. cbv beta iota. rewrite G6. reflexivity. }
+  split; [|eauto]. unfold write_b. rewrite L. unfold write. fold rd rb ru rs.
+  destruct rd as [d wd]. destruct rb as [bb wb]. destruct ru as [u wu]. destruct rs as [ss ws]. cbn [fst snd] in *.
+  f_equal. unfold discard, c6, c5, c4, c3, c2, c1. cbn.
+  assert (E1 : forall l, filter (fun p0 : Z * strm => negb (discardable [] p0)) l = filter (fun p0 => negb (stream_finished (snd p0))) l).
+  { intros l. apply filter_ext'. intros a. unfold discardable. cbn. rewrite andb_true_r. reflexivity. }
+  assert (E2 : forall l, filter (discardable []) l = filter (fun p0 : Z * strm => stream_finished (snd p0)) l).
+  { intros l. apply filter_ext'. intros a. unfold discardable. cbn. rewrite andb_true_r. reflexivity. }
+  rewrite E1, E2. reflexivity.
 Qed.
